@@ -10,8 +10,14 @@ use rtcp_types::{Sdes, SdesItem};
 
 /// what the crate's parser yields, in the reference's token shape (wire_len from SdesChunk::length)
 fn crate_tokens(p: &Sdes) -> Result<Vec<(TokChunk, Vec<usize>)>, Failure> {
-    guard(|| {
+    let (out, verdict) = guard(|| {
         let mut out = Vec::new();
+        let mut verdict: Verdict = Ok(());
+        let mut note = |v: Verdict| {
+            if verdict.is_ok() {
+                verdict = v;
+            }
+        };
         step("Sdes::chunks");
         for c in p.chunks() {
             let mut items = Vec::new();
@@ -23,14 +29,29 @@ fn crate_tokens(p: &Sdes) -> Result<Vec<(TokChunk, Vec<usize>)>, Failure> {
                 lens.push(it.length());
                 let value = it.value().to_vec();
                 let prefix = if ty == SdesItem::PRIV { it.priv_prefix().to_vec() } else { Vec::new() };
+                // the value as a string is the value's bytes as a string
+                step("SdesItem::get_value_string");
+                let s = it.get_value_string().ok();
+                if s != String::from_utf8(value.clone()).ok() {
+                    note(Err(Failure::new("C10:value-string", format!("get_value_string() = {s:?} for the value bytes {}", hex(&value)))));
+                }
                 items.push(TokItem { ty, content: Vec::new(), prefix, value });
             }
+            // the same items whichever way the iterator is driven
+            let want: Vec<(u8, Vec<u8>)> = items.iter().map(|i: &TokItem| (i.ty, i.value.clone())).collect();
+            let salt = want.iter().fold(c.ssrc() as u64, |h, (t, v)| h.wrapping_mul(0x100_0000_01b3) ^ (*t as u64) ^ ((v.len() as u64) << 8));
+            note(super::common::iter_protocol("SdesChunk::items", "C10", || c.items(), |i| (i.type_(), i.value().to_vec()), &want, salt, false));
             step("SdesChunk::ssrc/length");
             out.push((TokChunk { ssrc: c.ssrc(), items, wire_len: c.length() }, lens));
         }
-        out
+        let want: Vec<(u32, usize)> = out.iter().map(|(c, _)| (c.ssrc, c.wire_len)).collect();
+        let salt = want.iter().fold(want.len() as u64, |h, (s, l)| h.wrapping_mul(0x100_0000_01b3) ^ (*s as u64) ^ ((*l as u64) << 32));
+        note(super::common::iter_protocol("Sdes::chunks", "C10", || p.chunks(), |c| (c.ssrc(), c.length()), &want, salt, false));
+        (out, verdict)
     })
-    .map_err(|c| Failure::new(format!("C10:panic:{}", c.step), format!("{} panicked: {}", c.step, c.message)))
+    .map_err(|c| Failure::new(format!("C10:panic:{}", c.step), format!("{} panicked: {}", c.step, c.message)))?;
+    verdict?;
+    Ok(out)
 }
 
 fn same_tokens(want: &[TokChunk], got: &[(TokChunk, Vec<usize>)], b: &[u8], class: &str) -> Verdict {
